@@ -116,6 +116,12 @@ class CallMixin:
             if (f.__module__ or '').startswith('mesonbuild'):
                 return self.call_function(f, args, kwargs, node)
         if isinstance(f, types.MethodType) and isinstance(f.__func__, types.FunctionType) and (f.__func__.__module__ or '').startswith('mesonbuild'):
+            cc_ = getattr(self, 'cur_contract', None)
+            if cc_ is not None and f.__name__ in (cc_.opaque or {}) and type(f.__self__).__name__ in (cc_.native_classes or ()) \
+                    and any(is_sym(a) or contains_sym(a) for a in list(args) + list(kwargs.values())):
+                # a natively built value object (OptionKey('buildtype')) asked for a method the contract treats as opaque, with
+                # symbolic arguments: the object is interned as an opaque object and the method is the same uninterpreted function
+                return self.call_bound(BoundMethod(VObj(self.zs.lift(f.__self__, self.zs.zsort(api.Obj))), f.__name__), args, kwargs, node, fr)
             return self.call_function(f.__func__, [f.__self__] + list(args), kwargs, node)
         def _conc(a):
             if isinstance(a, PyList) and not any(is_sym(x) or contains_sym(x) or isinstance(x, (PyList, PyDict, VStruct)) for x in a.items):
